@@ -103,6 +103,24 @@ def run_case(ctx, rep, case, base, model_ok):
                 t0.append_records(tablekit.rows(2, tag="orig"))
                 orig_rows = sorted(reader.rowkey(r) for r in tablekit.rows(2, tag="orig"))
             orig_uuid = t0.metadata_manager.refresh().table_uuid
+            if init_state == "legacy-names-pointer-lost":
+                # a table written by an old release: metadata files named vN.metadata.json (no suffix); its pointer is gone
+                t0.append_records(tablekit.rows(2, tag="orig"))
+                orig_rows = sorted(reader.rowkey(r) for r in tablekit.rows(2, tag="orig"))
+                import re as _re
+                if backend == "local":
+                    mdir = os.path.join(path, "metadata")
+                    for fn in os.listdir(mdir):
+                        m_ = _re.match(r"^v(\d+)-[0-9a-f]+\.metadata\.json$", fn)
+                        if m_:
+                            os.rename(os.path.join(mdir, fn), os.path.join(mdir, f"v{m_.group(1)}.metadata.json"))
+                    os.remove(os.path.join(path, "metadata.version-hint.text"))
+                else:
+                    for k_ in list(env.fake.objects):
+                        m_ = _re.match(r"^(.*/metadata/)v(\d+)-[0-9a-f]+\.metadata\.json$", k_)
+                        if m_:
+                            env.fake.objects[f"{m_.group(1)}v{m_.group(2)}.metadata.json"] = env.fake.objects.pop(k_)
+                    env.fake.objects.pop(f"{loc}/metadata.version-hint.text", None)
             if init_state in ("pointer-lost", "v0-without-pointer"):
                 if backend == "local":
                     os.remove(os.path.join(path, "metadata.version-hint.text"))
@@ -333,6 +351,48 @@ def _preempt_before(what_prefix, age_lock=False):
     return mk
 
 
+def _landed_but_failed(ctx, rep):
+    """CAS S3, ONE creator: the create-if-absent PUT of the pointer takes effect and the client sees an error (500 / timeout). Whatever the
+    first call reports, the location must end up holding ONE usable table that every later caller lands on"""
+    from datashard import create_table, load_table
+    for fault_on in ("hint", "meta"):
+        with fakes3.S3Env() as env, fakes3.NoSleep():
+            loc = "wh/landed"
+            state = {"left": 1}
+
+            def hook(phase, op, key, kw, state=state):
+                cls_ok = key.endswith("metadata.version-hint.text") if fault_on == "hint" else key.endswith(".metadata.json")
+                if phase == "after" and op == "put" and cls_ok and state["left"]:
+                    state["left"] -= 1
+                    raise fakes3.client_error("InternalError", "PutObject")
+            env.fake.hook = hook
+            outcomes, uuids = [], []
+            for who in ("creator-A", "creator-A-again", "creator-B", "opener"):
+                try:
+                    t = load_table(loc) if who == "opener" else create_table(loc, tablekit.schema())
+                    md = t.metadata_manager.refresh()
+                    outcomes.append("ok")
+                    uuids.append(md.table_uuid if md else None)
+                except Exception as e:      # noqa: BLE001
+                    outcomes.append(type(e).__name__)
+                    uuids.append("raise")
+            env.fake.hook = None
+            rep.evaluations += 1
+            rep.nontrivial(["landed-but-failed", fault_on])
+            case = {"kind": "create-put-landed-but-reported-failed", "fault_on": fault_on, "outcomes": outcomes}
+            later = [u for u in uuids[1:] if u != "raise"]
+            if len(later) < 3 or None in later or len(set(later)) != 1:
+                rep.violate("C18:location-unusable-after-a-landed-but-failed-create", f"pointer/metadata PUT landed and returned 500 on the first create "
+                            f"({fault_on}); afterwards: {list(zip(('A', 'A again', 'B', 'opener'), outcomes, [str(u)[:8] for u in uuids]))}", case)
+                continue
+            try:
+                t.append_records(tablekit.rows(1))
+                if len(load_table(loc).scan()) != 1:
+                    rep.violate("C18:location-unusable-after-a-landed-but-failed-create", "first append not reflected", case)
+            except Exception as e:      # noqa: BLE001
+                rep.violate("C18:location-unusable-after-a-landed-but-failed-create", f"first append raises {type(e).__name__}: {str(e)[:80]}", case)
+
+
 def cases(ctx):
     rng = ctx.rng("cases")
     out = []
@@ -343,12 +403,12 @@ def cases(ctx):
             out.append({"backend": backend, "initial": "absent", "actors": ["create", "create"], "chooser": _preempt_before(pre, age),
                         "lock_may_lapse": age})
     for backend in ("local", "s3cas"):
-        for initial in ("absent", "healthy", "pointer-lost", "v0-without-pointer"):
+        for initial in ("absent", "healthy", "pointer-lost", "v0-without-pointer", "legacy-names-pointer-lost"):
             out.append({"backend": backend, "initial": initial, "actors": ["create", "create"]})
             out.append({"backend": backend, "initial": initial, "actors": ["create", "open", "append"]})
     for _ in range(ctx.budget(30, 1200)):
         n = rng.choice([2, 2, 3])
-        out.append({"backend": rng.choice(["local", "s3cas"]), "initial": rng.choice(["absent", "absent", "healthy", "pointer-lost", "v0-without-pointer"]),
+        out.append({"backend": rng.choice(["local", "s3cas"]), "initial": rng.choice(["absent", "absent", "healthy", "pointer-lost", "v0-without-pointer", "legacy-names-pointer-lost"]),
                     "actors": [rng.choice(["create", "create", "open", "append"]) for _ in range(n)]})
     for i, c in enumerate(out):
         c["id"] = i
@@ -370,6 +430,7 @@ def run(ctx, model_ok):
                 rep.notes.append(f"case {c['id']} stuck: {e}")
                 rep.distribution["stuck"] += 1
         _schema_semantics(ctx, rep, base)
+        _landed_but_failed(ctx, rep)
         # an existing table whose pointer is lost, created again while the metadata listing fails: never a second initialisation
         from . import c10
         before_n = len(rep.violations)
